@@ -4,8 +4,14 @@ address oracle, translation invariance; Geom/Symmetry.v: the predicates under th
 cpp2v-generated Gen/Geometry.v; Cola/PseudoRandom: the LCG recurrence);
 tie: translator (T) for the geometry predicates + correspondence (C) for the scan-line model (checks/c09.py machinery) +
 replay runs on the real code: same call repeated in one process under allocator priming / unrelated work, translated
-frames, the 8 symmetries, permuted input order."""
-import os, json, math
+frames, the 8 symmetries, permuted input order.
+(c2) the routing runs are repeated under sampled NON-DEFAULT configurations: every Avoid::RoutingParameter at 0 and at one or two
+positive values, every RoutingOption on/off, polyline and orthogonal, 1-3 connectors, optionally pins / direction flags; compared:
+bit-identical repetition (also after a routing call with other arguments), exact translation of route(), 1e-9 translation of the nudged
+displayRoute(), and under the 8 symmetries / permuted insertion the route COST recomputed from the raw route() exactly as cost()
+(makepath.cpp) accumulates it.  (a2) removeoverlaps repeated after unrelated calls of the same API (thirdPass false, other rectangles,
+borders set and restored by the caller) with no reset in between."""
+import os, json, math, collections
 from fractions import Fraction as F
 from vlib import common as C
 from checks import rectlib as L
@@ -500,6 +506,548 @@ def part_c(res, rng, exe, n_inst, stats):
     return dt
 
 
+# ------------------------------------------------------------------------------------------ (c2) libavoid, non-default configurations
+PARAMS = ['segmentPenalty', 'anglePenalty', 'crossingPenalty', 'clusterCrossingPenalty', 'fixedSharedPathPenalty', 'portDirectionPenalty',
+          'shapeBufferDistance', 'idealNudgingDistance', 'reverseDirectionPenalty']
+OPTIONS = ['nudgeOrthogonalSegmentsConnectedToShapes', 'improveHyperedgeRoutesMovingJunctions', 'penaliseOrthogonalSharedPathsAtConnEnds',
+           'nudgeOrthogonalTouchingColinearSegments', 'performUnifyingNudgingPreprocessingStep',
+           'improveHyperedgeRoutesMovingAddingAndDeletingJunctions', 'nudgeSharedPathsWithCommonEndPoint']
+# 0 and one or two positive values per parameter (dyadic, so that every frame passes exactly the same numbers)
+PARAM_VALUES = {'segmentPenalty': [0, 10, 37, 50.5], 'anglePenalty': [0, 0, 20, 5.5], 'crossingPenalty': [0, 0, 200, 30.25],
+                'clusterCrossingPenalty': [0, 4000, 55], 'fixedSharedPathPenalty': [0, 0, 110, 9.125], 'portDirectionPenalty': [0, 100, 13.5],
+                'shapeBufferDistance': [0, 0, 2, 0.75], 'idealNudgingDistance': [0, 0, 4, 1.5], 'reverseDirectionPenalty': [0, 230, 17.25]}
+DIRV = {1: (0, -1), 2: (0, 1), 4: (-1, 0), 8: (1, 0)}          # ConnDirUp = towards smaller y (orthogonal.cpp:1649)
+
+
+def map_dirs(dirs, f):
+    out = 0
+    for bit, v in DIRV.items():
+        if dirs & bit:
+            w = f(v[0], v[1])
+            out |= next(b for b, u in DIRV.items() if u == (w[0], w[1]))
+    return out
+
+
+def sample_config(rng):
+    mode = rng.below(2)
+    par = [PARAM_VALUES[n][rng.below(len(PARAM_VALUES[n]))] for n in PARAMS]
+    if rng.chance(1, 8):
+        par = [0, 0, 0, 4000, 0, 0, 0, 4, 0]
+        par[8] = rng.choice([230, 17.25, 64])                    # reverseDirectionPenalty alone
+        par[0] = rng.choice([0, 10, 37])
+    if mode == 1 and par[0] == 0:
+        # documented + asserted precondition (router.h segmentPenalty @note; COLA_ASSERT makepath.cpp:796): orthogonal routing needs a
+        # positive segmentPenalty; 0 stays in the polyline half of the distribution
+        par[0] = rng.choice([10, 37, 50.5])
+    opt = 0
+    for i in range(7):
+        if rng.chance(1, 2):
+            opt |= 1 << i
+    return mode, par, opt
+
+
+FEATURE_OVERRIDE = None          # calibration only
+
+
+def scene2(rng, buf):
+    """separated integer rectangles (gap > 2 * shapeBufferDistance), free ends outside the buffered boxes, optionally direction flags on free
+    ends and ends attached to the four side-centre pins of a shape"""
+    gap = 3 + 2 * int(math.ceil(buf))
+    m = 1 + int(math.ceil(buf))
+    ns = rng.range(1, 5)
+    shapes, tries = [], 0
+    while len(shapes) < ns and tries < 200:
+        tries += 1
+        x, y, w, h = rng.range(0, 60), rng.range(0, 60), rng.range(4, 20), rng.range(4, 20)
+        r = (x, y, x + w, y + h)
+        if all(r[2] + gap <= s[0] or s[2] + gap <= r[0] or r[3] + gap <= s[1] or s[3] + gap <= r[1] for s in shapes):
+            shapes.append(r)
+    feat = FEATURE_OVERRIDE or rng.choice(['plain'] * 6 + ['pins', 'pins', 'dirs', 'both'])
+    with_pins = feat in ('pins', 'both')
+    with_dirs = feat in ('dirs', 'both')
+    pins = [(1 + rng.below(24)) if with_pins and rng.chance(2, 3) else 0 for _ in shapes]
+
+    def free_pt():
+        while True:
+            q = (rng.range(-10, 90), rng.range(-10, 90))
+            if all(q[0] < s[0] - m or q[0] > s[2] + m or q[1] < s[1] - m or q[1] > s[3] + m for s in shapes):
+                return q
+
+    def end(avoid=None):
+        cands = [i for i, k in enumerate(pins) if k and i != avoid]
+        if cands and rng.chance(1, 2):
+            return ('S', rng.choice(cands))
+        q = free_pt()
+        d = 15
+        if with_dirs and rng.chance(1, 2):
+            d = rng.choice([1, 2, 4, 8, 3, 12, 5, 10, 7, 14])
+        return ('P', q[0], q[1], d)
+    conns = []
+    for _ in range(rng.range(1, 3)):
+        a = end()
+        b = end(a[1] if a[0] == 'S' else None)
+        if a[0] == 'P' and b[0] == 'P' and a[1:3] == b[1:3]:
+            continue
+        conns.append((a, b))
+    if not conns:
+        conns = [(('P', -10, -10, 15), ('P', 90, 90, 15))]
+    return shapes, pins, conns
+
+
+def cmd_C(mode, par, opt, shapes, pins, conns, f=lambda x, y: (x, y), tx=F(0), ty=F(0), sperm=None, pinperm=None):
+    def P(x, y):
+        a, b = f(F(x), F(y))
+        return '%s %s' % (fs(a + tx), fs(b + ty))
+
+    def E(e):
+        if e[0] == 'S':
+            return 'S %d' % (sperm.index(e[1]) if sperm else e[1])
+        return 'P %s %d' % (P(e[1], e[2]), map_dirs(e[3], f))
+    order = sperm if sperm else list(range(len(shapes)))
+    pk = pinperm if pinperm else pins
+    return 'C %d %s %d %d %s %d %s 0' % (mode, ' '.join(fs(F(v)) for v in par), opt, len(shapes),
+                                       ' '.join('%s %s %d' % (P(shapes[i][0], shapes[i][1]), P(shapes[i][2], shapes[i][3]), pk[i]) for i in order),
+                                       len(conns), ' '.join('%s %s' % (E(a), E(b)) for a, b in conns))
+
+
+def parse_C(line):
+    """-> list of (raw route, display route) per connector, or ('X', what)"""
+    if line.startswith('CX'):
+        return ('X', line[3:].strip())
+    f = line.split()[1:]
+    out, i = [], 0
+    while i < len(f):
+        pair = []
+        for tag in ('R', 'D'):
+            assert f[i] == tag
+            k = int(f[i + 1])
+            pair.append([(L.hexq(f[i + 2 + 2 * j]), L.hexq(f[i + 3 + 2 * j])) for j in range(k)])
+            i += 2 + 2 * k
+        out.append(tuple(pair))
+    return out
+
+
+def route_cost(raw, mode, par, src_dst=None):
+    """the cost the router's cost() (makepath.cpp) accumulates along the raw route (every visibility-graph vertex is on it):
+    sum of edge lengths + per interior vertex the bend terms (segmentPenalty per bend, twice for a doubling back, the angle
+    term for polylines) + reverseDirectionPenalty per edge heading away from the destination in x or y.
+    Returns (cost, length, bends, reversing_edges)."""
+    seg, ang, rev = float(par[0]), float(par[1]), float(par[8])
+    pts = [(float(x), float(y)) for x, y in raw]
+    ln, nb, nrev, c = 0.0, 0, 0, 0.0
+    sx = (pts[-1][0] > pts[0][0]) - (pts[-1][0] < pts[0][0])
+    sy = (pts[-1][1] > pts[0][1]) - (pts[-1][1] < pts[0][1])
+    for i in range(1, len(pts)):
+        a, b = pts[i - 1], pts[i]
+        d = (abs(b[0] - a[0]) + abs(b[1] - a[1])) if mode == 1 else math.hypot(b[0] - a[0], b[1] - a[1])
+        ln += d
+        c += d
+        if rev:
+            ex = (b[0] > a[0]) - (b[0] < a[0])
+            ey = (b[1] > a[1]) - (b[1] < a[1])
+            if (sx != 0 and ex == -sx) or (sy != 0 and ey == -sy):
+                nrev += 1
+                c += rev
+        if i >= 2 and (ang > 0 or seg > 0):
+            p1, p2, p3 = pts[i - 2], a, b
+            if p1 == p2 or p2 == p3:
+                rad = 0.0
+            else:
+                v1 = (p1[0] - p2[0], p1[1] - p2[1])
+                v2 = (p3[0] - p2[0], p3[1] - p2[1])
+                rad = math.pi - abs(math.atan2(v1[0] * v2[1] - v1[1] * v2[0], v1[0] * v2[0] + v1[1] * v2[1]))
+            if rad > 0 and mode == 0:
+                xv = rad * 10 / math.pi
+                c += ang * (xv * math.log10(xv + 1) / 10.5)
+            if rad == math.pi:
+                c += 2 * seg
+                nb += 2
+            elif rad > 0:
+                c += seg
+                nb += 1
+        elif i >= 2:
+            p1, p2, p3 = pts[i - 2], a, b
+            if p1 != p2 and p2 != p3 and (p2[0] - p1[0]) * (p3[1] - p2[1]) != (p2[1] - p1[1]) * (p3[0] - p2[0]):
+                nb += 1
+    return c, ln, nb, nrev
+
+
+def rotational_angle(x, y):
+    """Avoid::rotationalAngle (geometry.cpp:613)"""
+    if y == 0:
+        return 180.0 if x < 0 else 0.0
+    if x == 0:
+        return 270.0 if y < 0 else 90.0
+    a = math.atan(y / x) * 180 / math.pi
+    if x < 0:
+        a += 180
+    elif y < 0:
+        a += 360
+    return a
+
+
+def full_cost(raw, mode, par, conn, frame_shapes):
+    """route_cost of the path the A* search really costs: an end attached to a shape's pin class is a dummy vertex at the shape's centre
+    joined to each pin by an edge of length dist(centre, pin) + max(0.001, pin cost [+ portDirectionPenalty when the other end is outside
+    the pin's 90-degree cone]) (connend.cpp:273-352); the dummy vertices are clipped from route() (connector.cpp generatePath)."""
+    def centre(i):
+        s = frame_shapes[i]
+        return ((s[0] + s[2]) / 2, (s[1] + s[3]) / 2)
+    ends = [centre(e[1]) if e[0] == 'S' else None for e in conn]
+    path = ([ends[0]] if ends[0] else []) + list(raw) + ([ends[1]] if ends[1] else [])
+    c, ln, nb, nrev = route_cost(path, mode, par)
+    extra = 0.0
+    for k in (0, 1):
+        if ends[k] is None:
+            continue
+        pin = raw[0] if k == 0 else raw[-1]
+        tgt = ends[1 - k] if ends[1 - k] else (raw[-1] if k == 0 else raw[0])
+        cx, cy = ends[k]
+        d = (float(pin[0] - cx), float(pin[1] - cy))             # outward direction of a side-centre pin
+        ang = rotational_angle(float(tgt[0] - pin[0]), float(tgt[1] - pin[1]))
+        inr = False
+        if (ang <= 45 or ang >= 315) and d[0] > 0:
+            inr = True
+        if 45 <= ang <= 135 and d[1] > 0:
+            inr = True
+        if 135 <= ang <= 225 and d[0] < 0:
+            inr = True
+        if 225 <= ang <= 315 and d[1] < 0:
+            inr = True
+        extra += max(0.001, 0.0 if inr else float(par[5]))
+    return c + extra, ln, nb, nrev
+
+
+def seglens(route):
+    """multiset of the segment lengths of the simplified polyline"""
+    simp = []
+    for q in route:
+        if simp and q == simp[-1]:
+            continue
+        if len(simp) >= 2:
+            a, b = simp[-2], simp[-1]
+            if (b[0] - a[0]) * (q[1] - a[1]) == (q[0] - a[0]) * (b[1] - a[1]) and (b[0] - a[0]) * (q[0] - b[0]) + (b[1] - a[1]) * (q[1] - b[1]) >= 0:
+                simp[-1] = q
+                continue
+        simp.append(q)
+    return sorted(round(math.hypot(float(b[0] - a[0]), float(b[1] - a[1])), 9) for a, b in zip(simp, simp[1:]))
+
+
+def cfg_json(mode, par, opt):
+    return {'routing': 'orthogonal' if mode else 'polyline', 'parameters': {n: float(v) for n, v in zip(PARAMS, par)},
+            'options': {n: bool((opt >> i) & 1) for i, n in enumerate(OPTIONS)}}
+
+
+SYM_INV = [0, 1, 2, 3, 4, 6, 5, 7]
+
+
+def restricted_points(shapes, pins, conns, skip):
+    """connection points with restricted visibility in the identity frame: (x, y, ConnDirFlags)"""
+    pts = []
+    for k, (a, b) in enumerate(conns):
+        for e in (a, b):
+            if e[0] == 'P' and e[3] != 15 and k != skip:
+                pts.append((F(e[1]), F(e[2]), e[3]))
+    for s_, k in zip(shapes, pins):
+        if k:
+            cx, cy = F(s_[0] + s_[2], 2), F(s_[1] + s_[3], 2)
+            pts += [(cx, F(s_[1]), 1), (cx, F(s_[3]), 2), (F(s_[0]), cy, 4), (F(s_[2]), cy, 8)]
+    return pts
+
+
+def classify_cost_mismatch(mode, par, shapes, pins, conns, j, ra, rb, ca, cb, axis_swap):
+    """classifier predicates of the known findings, evaluated on the failing case (both routes in the identity frame; ca / cb =
+    (cost, length, bends, reversing edges) in the two frames)"""
+    same_geom = abs(ca[1] - cb[1]) <= 1e-9 * max(1.0, ca[1]) and ca[2:] == cb[2:]
+    if par[5] > 0 and any(e[0] == 'S' for e in conns[j]) and same_geom and \
+            any(abs(abs(ca[0] - cb[0]) - k * (par[5] - 0.001)) <= 1e-9 * max(1.0, ca[0]) for k in (1, 2)):
+        # same length / bends / reversing edges, the costs differ by exactly the portDirectionPenalty of one (or both) pin ends
+        return 'port_direction_penalty_suboptimal_pin'
+    if mode == 0 and par[8] > 0:
+        b = F(par[6])
+        corners = [(F(x), F(y)) for q in shapes for x in (q[0] - b, q[2] + b) for y in (q[1] - b, q[3] + b)]
+        for r in (ra, rb):
+            for (x0, y0), (x1, y1) in zip(r, r[1:]):
+                for (cx, cy) in corners:
+                    if (cx, cy) not in ((x0, y0), (x1, y1)) and (x1 - x0) * (cy - y0) == (y1 - y0) * (cx - x0) and \
+                            min(x0, x1) <= cx <= max(x0, x1) and min(y0, y1) <= cy <= max(y0, y1):
+                        return 'reverse_penalty_per_visibility_edge'
+            for (x0, y0), (x1, y1), (x2, y2) in zip(r, r[1:], r[2:]):
+                if (x1 - x0) * (y2 - y1) == (y1 - y0) * (x2 - x1):
+                    return 'reverse_penalty_per_visibility_edge'
+    if mode != 1:
+        return None
+    if par[8] > 0:
+        cheap = ra if ca[0] < cb[0] else rb
+        sx = (cheap[-1][0] > cheap[0][0]) - (cheap[-1][0] < cheap[0][0])
+        sy = (cheap[-1][1] > cheap[0][1]) - (cheap[-1][1] < cheap[0][1])
+        ex = (cheap[1][0] > cheap[0][0]) - (cheap[1][0] < cheap[0][0])
+        ey = (cheap[1][1] > cheap[0][1]) - (cheap[1][1] < cheap[0][1])
+        if (sx != 0 and ex == -sx) or (sy != 0 and ey == -sy):
+            # the cheaper of the two routes leaves its source heading away from the destination: the other frame's search did not find it
+            return 'reverse_penalty_optimum_starts_reversing'
+
+    def fallback(r):
+        # the router's `path not found' fall-back: the bare segment source -> destination, not axis-parallel or through a shape's interior
+        if len(r) != 2:
+            return False
+        (x0, y0), (x1, y1) = r
+        if x0 != x1 and y0 != y1:
+            return True
+        return any(min(x0, x1) < q[2] and max(x0, x1) > q[0] and min(y0, y1) < q[3] and max(y0, y1) > q[1] for q in shapes)
+    if any(pins) and fallback(ra) != fallback(rb):
+        return 'orthogonal_no_path_with_boundary_pins'
+    for r in (ra, rb):
+        for (x0, y0), (x1, y1) in zip(r, r[1:]):
+            for (px, py, d) in restricted_points(shapes, pins, conns, j):
+                if min(x0, x1) <= px <= max(x0, x1) and min(y0, y1) <= py <= max(y0, y1):
+                    horizontal = y0 == y1 and x0 != x1
+                    vertical = x0 == x1 and y0 != y1
+                    if (horizontal and not d & 12) or (vertical and not d & 3):
+                        return 'route_through_restricted_connection_point'
+    if axis_swap and any(e[0] == 'P' and e[3] != 15 for cn in conns for e in cn):
+        # coarse: a free end with restricted ConnDirFlags in the scene, the three mirror frames agree with the identity, an axis-swapping frame does not
+        return 'orthogonal_direction_flags_axis_asymmetry'
+    return None
+
+
+FRAME_NAMES = ['identity', 'mirror x -> -x', 'mirror y -> -y', 'rotate 180', 'transpose (x<->y)', 'rotate 90 (x,y)->(-y,x)', 'rotate 270 (x,y)->(y,-x)',
+               'anti-transpose (x,y)->(-y,-x)']
+
+
+# directed scenes (quiet on the unchanged tree): source and destination in a mixed quadrant with reverseDirectionPenalty > 0, all four quadrants
+FIXED_C2 = [{'mode': m, 'par': [37, 0, 0, 0, 0, 0, 0, 0, 230], 'opt': 82, 'shapes': [[279, 40, 352, 130]], 'pins': [0],
+             'conns': [[['P', 441, 157, 15], ['P', 113, 418, 15]], [['P', 113, 157, 15], ['P', 441, 418, 15]]]} for m in (1, 0)]
+
+
+def new_hist():
+    return {'parameter': {}, 'option': {}, 'routing': {'orthogonal': 0, 'polyline': 0}, 'connectors': {}, 'features': collections.defaultdict(int), 'threw': {},
+            'parameter_combinations_positive': {}}
+
+
+def part_c2(res, rng, exe, n_inst, stats, hist):
+    cmds, meta, deferred = [], [], []
+    prev = None
+    corpus = []
+    cp = os.path.join(C.VERIF, 'corpus', 'c20_routing_config.json')
+    if os.path.exists(cp):
+        corpus = json.load(open(cp))['cases']
+    corpus = corpus + FIXED_C2
+    for k in range(n_inst + len(corpus)):
+        mode, par, opt = sample_config(rng)
+        shapes, pins, conns = scene2(rng, par[6])
+        tx, ty = F(rng.range(-2 ** 15, 2 ** 15), 1024), F(rng.range(-2 ** 15, 2 ** 15), 1024)
+        if k < len(corpus):
+            d = corpus[k]
+            mode, par, opt = d['mode'], [F(v) for v in d['par']], d['opt']
+            shapes, pins = [tuple(q) for q in d['shapes']], list(d['pins'])
+            conns = [(tuple(a), tuple(b)) for a, b in d['conns']]
+            if 'offset' in d:
+                tx, ty = F(d['offset'][0]), F(d['offset'][1])
+        sperm = rng.shuffle(range(len(shapes)))
+        pinperm = [(1 + rng.below(24)) if q else 0 for q in pins]
+        base = cmd_C(mode, par, opt, shapes, pins, conns)
+        # unrelated call of the SAME API with other arguments between two of the identical runs: the previous scene under another configuration
+        other = prev if prev else 'C 0 10 0 0 4000 0 0 0 4 0 82 1 0 0 5 5 0 1 P -3 -3 15 P 9 9 15 0'
+        block = [base, 'J %d %d' % (rng.range(10, 400), rng.next() % 10 ** 9), base, other, base,
+                 cmd_C(mode, par, opt, shapes, pins, conns, tx=tx, ty=ty),
+                 cmd_C(mode, par, opt, shapes, pins, conns, sperm=sperm, pinperm=pinperm)]
+        block += [cmd_C(mode, par, opt, shapes, pins, conns, f=SYMS[s]) for s in range(1, 8)]
+        cmds += block
+        meta.append((shapes, pins, conns, mode, par, opt, tx, ty, sperm, len(block)))
+        m2, p2, o2 = sample_config(rng)
+        prev = cmd_C(m2, p2, o2, shapes, pins, conns)
+    rc, out, err, dt = L.run_lines([exe], cmds, timeout=1500)
+    if rc != 0 or len(out) != len(cmds):
+        res.violation({'what': 'harness c20_replay crashed in the configured routing run', 'rc': rc, 'stderr': err[-1500:],
+                       'command': cmds[len(out)] if len(out) < len(cmds) else None})
+        return dt
+    pos = 0
+    rp = 'build/bin/c20_replay-exc-*'
+    for (shapes, pins, conns, mode, par, opt, tx, ty, sperm, blen) in meta:
+        o = out[pos:pos + blen]
+        c = cmds[pos:pos + blen]
+        pos += blen
+        stats['c2_scenes'] += 1
+        for n, v in zip(PARAMS, par):
+            hist['parameter'].setdefault(n, {}).setdefault(repr(float(v)), 0)
+            hist['parameter'][n][repr(float(v))] += 1
+        for i, n in enumerate(OPTIONS):
+            hist['option'].setdefault(n, {'on': 0, 'off': 0})['on' if (opt >> i) & 1 else 'off'] += 1
+        hist['routing']['orthogonal' if mode else 'polyline'] += 1
+        combo = ('orthogonal:' if mode else 'polyline:') + '+'.join(n for n, v in zip(PARAMS, par) if v) or '-'
+        hist['parameter_combinations_positive'][combo] = hist['parameter_combinations_positive'].get(combo, 0) + 1
+        hist['connectors'][str(len(conns))] = hist['connectors'].get(str(len(conns)), 0) + 1
+        hist['features']['pins'] += any(pins)
+        hist['features']['pin_ends'] += any(e[0] == 'S' for cn in conns for e in cn)
+        hist['features']['direction_flags'] += any(e[0] == 'P' and e[3] != 15 for cn in conns for e in cn)
+        hist['features']['reverse_penalty_mixed_quadrant'] += bool(par[8]) and any(
+            a[0] == 'P' and b[0] == 'P' and (a[1] - b[1]) * (a[2] - b[2]) < 0 for a, b in conns)
+        inp = dict(cfg_json(mode, par, opt))
+        inp.update({'shapes_x0_y0_x1_y1': shapes, 'shape_pins_order_index (0 = none)': pins,
+                    'connectors (P x y ConnDirFlags | S shape)': [[list(a), list(b)] for a, b in conns]})
+        if o[0] != o[2] or o[0] != o[4]:
+            w = 2 if o[0] != o[2] else 4
+            res.violation({'what': 'libavoid: the same configured scene routed again in one process (%s in between) gives a different result'
+                                   % ('unrelated allocation and library work' if w == 2 else 'a routing call with other arguments'),
+                           'input': inp, 'first': o[0], 'again': o[w], 'replay': 'printf "%s\\n" | %s' % ('\\n'.join(c[:w + 1]), rp)})
+            continue
+        base = parse_C(o[0])
+        if base[0] == 'X':
+            stats['c2_threw'] += 1
+            hist['threw'][base[1]] = hist['threw'].get(base[1], 0) + 1
+            continue
+        bc = [full_cost(r[0], mode, par, cn, shapes) for r, cn in zip(base, conns)]
+        tr = parse_C(o[5])
+        back = None if tr[0] == 'X' else [[[(x - tx, y - ty) for x, y in rt] for rt in r] for r in tr]
+        raw_exact = back is not None and [r[0] for r in back] == [list(r[0]) for r in base]
+        # displayRoute() of an orthogonal connector has been through the nudging solver (VPSC block positions are weighted means): 1e-9, as in (b)
+        disp_ok = back is not None and all(len(a[1]) == len(b[1]) and all(abs(p[0] - q[0]) <= 1e-9 and abs(p[1] - q[1]) <= 1e-9 for p, q in zip(a[1], b[1]))
+                                           for a, b in zip(back, base))
+        fp = None
+        if raw_exact and not disp_ok and mode == 1 and par[7] > 0 and all(
+                len(a[1]) == len(b[1]) and all(abs(p[0] - q[0]) <= 2 * par[7] + 1e-9 and abs(p[1] - q[1]) <= 2 * par[7] + 1e-9 for p, q in zip(a[1], b[1]))
+                for a, b in zip(back, base)):
+            # classifier: route() translates exactly, the nudged displayRoute() has the same shape and every coordinate is within two nudging
+            # distances: overlapping segments were nudged apart in the other order
+            fp = 'nudging_order_not_translation_invariant'
+            stats['c2_known_' + fp] += 1
+        if not raw_exact or not disp_ok:
+            res.violation({'what': 'libavoid (configured): translating the scene by an exactly representable offset does not translate '
+                                   + ('route() exactly' if not raw_exact else 'displayRoute() (1e-9)'),
+                           'input': inp, 'offset': [str(tx), str(ty)], 'routes_raw_display': [[[[float(x), float(y)] for x, y in rt] for rt in r] for r in base],
+                           'translated_minus_offset': tr[1] if tr[0] == 'X' else [[[[float(x), float(y)] for x, y in rt] for rt in r] for r in back],
+                           'replay': 'printf "%s\\n%s\\n" | %s' % (c[0], c[5], rp)}, fingerprint=fp)
+        else:
+            stats['c2_translate_ok'] += 1
+            stats['c2_translate_display_bit_exact'] += [r[1] for r in back] == [list(r[1]) for r in base]
+        for idx, name in [(6, 'shapes (and pins) inserted in permuted order %s' % sperm)] + [(6 + s, FRAME_NAMES[s]) for s in range(1, 8)]:
+            other = parse_C(o[idx])
+            if other[0] == 'X':
+                res.violation({'what': 'libavoid (configured): the scene routes in the identity frame but the library throws in frame: ' + name,
+                               'input': inp, 'thrown': other[1], 'replay': 'printf "%s\\n%s\\n" | %s' % (c[0], c[idx], rp)})
+                break
+            fsh = shapes
+            if idx > 6:
+                g = SYMS[idx - 6]
+                fsh = [g(F(q[0]), F(q[1])) + g(F(q[2]), F(q[3])) for q in shapes]
+            oc = [full_cost(r[0], mode, par, cn, fsh) for r, cn in zip(other, conns)]
+            bad = [j for j, (a, b) in enumerate(zip(bc, oc)) if abs(a[0] - b[0]) > 1e-9 * max(1.0, a[0])]
+            if bad:
+                j = bad[0]
+                ginv = SYMS[SYM_INV[idx - 6]] if idx > 6 else SYMS[0]
+                rb = [ginv(x, y) for x, y in other[j][0]]              # frame-b route mapped back into the identity frame
+                obj = {'what': 'libavoid (configured): route cost as the router defines it (length + segmentPenalty * bends + angle terms + '
+                               'reverseDirectionPenalty * reversing edges + pin edges) differs between frame "identity" and frame "%s"' % name,
+                       'input': inp, 'connector': j, 'frame_a': 'identity', 'frame_b': name,
+                       'cost_length_bends_reversing_edges_a': bc[j], 'cost_length_bends_reversing_edges_b': oc[j],
+                       'segment_lengths_a': seglens(base[j][0]), 'segment_lengths_b': seglens(other[j][0]),
+                       'route_a': [[float(x), float(y)] for x, y in base[j][0]], 'route_b': [[float(x), float(y)] for x, y in other[j][0]],
+                       'route_b_mapped_back': [[float(x), float(y)] for x, y in rb],
+                       'replay': 'printf "%s\\n%s\\n" | %s' % (c[0], c[idx], rp)}
+                fp = classify_cost_mismatch(mode, par, shapes, pins, conns, j, list(base[j][0]), rb, bc[j], oc[j], idx >= 10)
+                if fp is None and (par[2] > 0 or par[4] > 0) and len(conns) >= 2:
+                    # candidate for the crossing-stage finding: decided after the batch by re-running both frames with the two penalties at 0
+                    p0 = list(par)
+                    p0[2] = p0[4] = 0
+                    g = SYMS[idx - 6] if idx > 6 else SYMS[0]
+                    deferred.append((obj, mode, p0, opt, shapes, pins, conns, idx, g,
+                                     cmd_C(mode, p0, opt, shapes, pins, conns),
+                                     cmd_C(mode, p0, opt, shapes, pins, conns, f=g) if idx > 6 else
+                                     cmd_C(mode, p0, opt, shapes, pins, conns, sperm=sperm, pinperm=None)))
+                else:
+                    stats['c2_known_' + fp if fp else 'c2_cost_violations'] += 1
+                    res.violation(obj, fingerprint=fp)
+                break
+            stats['c2_cost_comparisons'] += len(bc)
+            stats['c2_same_geometry'] += all(seglens(a[0]) == seglens(b[0]) for a, b in zip(base, other))
+        if len(SAMPLES) < 8 and par[8] and mode:
+            SAMPLES.append({'call': 'libavoid configured: thrice / translated / 8 symmetries / permuted', 'input': inp, 'cost_length_bends_reversing_edges': bc})
+        if len(res.violations) > 6:
+            break
+    if deferred:
+        rc, out2, err, dt2 = L.run_lines([exe], [x for d in deferred for x in d[9:11]], timeout=600)
+        dt += dt2
+        for k, (obj, mode, p0, opt, shapes, pins, conns, idx, g, ca, cb) in enumerate(deferred):
+            fp = None
+            if len(out2) == 2 * len(deferred):
+                ra, rb_ = parse_C(out2[2 * k]), parse_C(out2[2 * k + 1])
+                if ra[0] != 'X' and rb_[0] != 'X':
+                    fsh = [g(F(q[0]), F(q[1])) + g(F(q[2]), F(q[3])) for q in shapes]
+                    ka = [full_cost(r[0], mode, p0, cn, shapes) for r, cn in zip(ra, conns)]
+                    kb = [full_cost(r[0], mode, p0, cn, fsh) for r, cn in zip(rb_, conns)]
+                    obj['costs_with_crossingPenalty_and_fixedSharedPathPenalty_zeroed'] = [ka, kb]
+                    obj['replay_zeroed'] = 'printf "%s\\n%s\\n" | %s' % (ca, cb, rp)
+                    if all(abs(x[0] - y[0]) <= 1e-9 * max(1.0, x[0]) for x, y in zip(ka, kb)):
+                        fp = 'crossing_stage_frame_dependent'
+            stats['c2_known_' + fp if fp else 'c2_cost_violations'] += 1
+            res.violation(obj, fingerprint=fp)
+    return dt
+
+
+# ------------------------------------------------------------------------------------------ (a2) removeoverlaps, same API interleaved
+def cmd_R2(inst, fixed, third, setb=0, xb=0, yb=0):
+    s_ = inst.scale
+    return 'R %d %d %s %s %d %s %d %s' % (1 if third else 0, setb, fs(F(xb, s_)), fs(F(yb, s_)), len(fixed), ' '.join(str(x) for x in fixed), inst.n(),
+                                         ' '.join('%s %s %s %s' % tuple(fs(F(v, s_)) for v in r) for r in inst.rects))
+
+
+def part_a2(res, rng, exe, n_inst, stats):
+    """the same removeoverlaps call before and after UNRELATED calls of the same API with other arguments / flags (other rectangles, thirdPass
+    false, fixed sets, Rectangle::setXBorder / setYBorder set by the caller and put back by the caller afterwards); nothing is reset in between,
+    so whatever a call leaves behind in the library's statics shows in the repeated call.  Bit-for-bit equality, including the borders."""
+    cmds, meta = [], []
+    for k in range(n_inst):
+        a = L.gen_instance(rng)
+        third = rng.chance(3, 4)
+        fixed = [rng.below(a.n())] if rng.chance(1, 4) else []
+        setb = rng.chance(1, 3)
+        xb, yb = (rng.range(0, 3), rng.range(0, 3)) if setb else (0, 0)
+        base = cmd_R2(a, fixed, third, 1 if setb else 0, xb, yb)
+        mid = []
+        for _ in range(rng.range(1, 3)):
+            b = L.gen_instance(rng)
+            kind = rng.below(4)
+            if kind == 0:
+                mid.append(cmd_R2(b, [], False))                                        # thirdPass = false, borders untouched
+            elif kind == 1:
+                mid.append(cmd_R2(b, [rng.below(b.n())], rng.chance(1, 2)))
+            elif kind == 2:
+                mid.append(cmd_R2(b, [], rng.chance(1, 2), 1, rng.range(0, 4), rng.range(0, 4)))   # borders set and restored by the caller
+            else:
+                mid.append(cmd_R2(a, [], not third))                                      # the same rectangles with the other flag
+        if rng.chance(1, 3):
+            mid.append('J %d %d' % (rng.range(10, 200), rng.next() % 10 ** 9))
+        block = [base] + mid + [base]
+        meta.append((a, fixed, third, setb, xb, yb, len(cmds), len(block)))
+        cmds += block
+    rc, out, err, dt = L.run_lines([exe], cmds, timeout=900)
+    if rc != 0 or len(out) != len(cmds):
+        res.violation({'what': 'harness c20_replay crashed in the removeoverlaps interleaving run', 'rc': rc, 'stderr': err[-1500:],
+                       'command': cmds[len(out)] if len(out) < len(cmds) else None})
+        return dt
+    reported = 0
+    for (a, fixed, third, setb, xb, yb, pos, blen) in meta:
+        stats['a2_pairs'] += 1
+        stats['a2_interleaved_calls'] += blen - 2
+        first, again = out[pos], out[pos + blen - 1]
+        if first != again:
+            stats['a2_differ'] += 1
+            if reported < 3:
+                reported += 1
+                fa, fb = first.split(), again.split()
+                res.violation({'what': 'removeoverlaps: the same call on equal input gives a different result after unrelated calls of the same API with other '
+                                       'arguments / flags in between (one process, nothing else touched)',
+                               'input': a.to_json(), 'fixed': fixed, 'thirdPass': third,
+                               'borders_set_and_restored_by_caller': [xb, yb] if setb else None,
+                               'calls_in_between': cmds[pos + 1:pos + blen - 1],
+                               'Rectangle_xBorder_yBorder_after_first_and_after_repeated_call': [[float.fromhex(fa[2]), float.fromhex(fa[3])],
+                                                                                                 [float.fromhex(fb[2]), float.fromhex(fb[3])]],
+                               'first': first, 'again': again,
+                               'replay': 'printf "%s\\n" | build/bin/c20_replay-exc-*' % '\\n'.join(cmds[pos:pos + blen])})
+    return dt
+
+
 def part_p(res, rng, exe, drv, n, stats):
     """PseudoRandom: compiled cola::PseudoRandom against the extracted LCG model, exactly (float(model value) == implementation value)"""
     cmds = ['P %d %d' % (s, 40) for s in [0, 1, 2, 3, 2 ** 31 - 1, 2 ** 31, 2 ** 32 - 1] + [rng.below(2 ** 32) for _ in range(n)]]
@@ -533,14 +1081,27 @@ def run(tier):
     ta = part_a(res, rng.fork(), exe_r, drv, 1500 if thorough else 400, stats)
     tb = part_b(res, rng.fork(), exe, 6000 if thorough else 1500, stats)
     tc = part_c(res, rng.fork(), exe, 1200 if thorough else 250, stats)
+    exe_x = C.build_harness('c20_replay', ['libvpsc', 'libavoid'], 'exc', extra_srcs=[os.path.join(C.COLA, 'libcola', 'pseudorandom.cpp')])
+    hist = new_hist()
+    c2stats = collections.defaultdict(int)
+    tc2 = part_c2(res, rng.fork(), exe_x, 4000 if thorough else 900, c2stats, hist)
+    ta2 = part_a2(res, rng.fork(), exe_x, 1200 if thorough else 300, c2stats)
+    stats.update(c2stats)
     corr_fail = part_p(res, rng.fork(), exe, drv, 400 if thorough else 60, stats)
-    res.cov.update({'evaluations': stats['a_runs'] + 5 * stats['b_instances'] + 12 * stats['c_scenes'],
-                    'distinct_nontrivial': stats['a_groups'] + stats['b_translate_ok'] + stats['c_cost_comparisons'],
+    hist['features'] = dict(hist['features'])
+    top = sorted(hist['parameter_combinations_positive'].items(), key=lambda kv: -kv[1])
+    hist['parameter_combinations_positive'] = {'distinct': len(top), 'most_frequent': dict(top[:25])}
+    nruns = stats['a_runs'] + 5 * stats['b_instances'] + 12 * stats['c_scenes'] + 14 * stats['c2_scenes'] + 2 * stats['a2_pairs'] + stats['a2_interleaved_calls']
+    res.cov.update({'evaluations': nruns,
+                    'distinct_nontrivial': stats['a_groups'] + stats['b_translate_ok'] + stats['c_cost_comparisons'] + stats['c2_cost_comparisons'] + stats['a2_pairs'],
                     'rule': 'non-trivial = groups of identical scan-line / removeoverlaps calls on rectangle sets with equal centres run under 5 allocator '
-                            'primings + VPSC instances whose translated run was compared + route-cost comparisons under symmetries / permutations',
-                    'exhaustive': False, 'counts': stats, 'samples': SAMPLES[:6],
-                    'traces_validated_against_impl': stats['a_runs'] + 5 * stats['b_instances'] + 12 * stats['c_scenes'],
-                    'timings_s': {'scanline_replay': round(ta, 2), 'incsolver_replay': round(tb, 2), 'routing_replay': round(tc, 2)}})
+                            'primings + VPSC instances whose translated run was compared + route-cost comparisons under symmetries / permutations '
+                            '(default and sampled non-default routing configurations) + removeoverlaps calls repeated after unrelated calls of the same API',
+                    'exhaustive': False, 'counts': stats, 'samples': SAMPLES[:8],
+                    'routing_configuration_histogram': hist,
+                    'traces_validated_against_impl': nruns,
+                    'timings_s': {'scanline_replay': round(ta, 2), 'incsolver_replay': round(tb, 2), 'routing_replay': round(tc, 2),
+                                  'routing_replay_configured': round(tc2, 2), 'removeoverlaps_interleaved': round(ta2, 2)}})
     res.cov['correspondence_disagreements'] = corr_fail[:3]
     if not res.violations and (not info['ok'] or corr_fail):
         res.violation({'what': 'proof obligation no longer checks (or cpp2v could not translate a predicate); the replay search found no failing input',
@@ -557,6 +1118,7 @@ def replay(path):
 def warm():
     L.build('exc')
     C.build_harness('c20_replay', ['libvpsc', 'libavoid'], 'plain', extra_srcs=[os.path.join(C.COLA, 'libcola', 'pseudorandom.cpp')])
+    C.build_harness('c20_replay', ['libvpsc', 'libavoid'], 'exc', extra_srcs=[os.path.join(C.COLA, 'libcola', 'pseudorandom.cpp')])
 
 
 META = {
@@ -586,7 +1148,18 @@ META = {
                   'weighted means), permuted - each real result is compared with the kkt_ok-certified optimum of its own instance (1e-5 * scale) and the '
                   'certified optima are compared exactly with each other, so agreement of the permuted / translated runs is a consequence of '
                   'C20_vpsc_permute_checked / C20_vpsc_translate_checked plus the per-run certificates. Replay-only (validation, not proof): libavoid routes twice, '
-                  'translated exactly, cost under the 8 symmetries and under permuted insertion order, on separated integer rectangles. Residual of F-d, '
+                  'translated exactly, cost under the 8 symmetries and under permuted insertion order, on separated integer rectangles, with the default '
+                  'penalties and (part c2) under sampled non-default configurations: all nine RoutingParameters at 0 / one or two positive dyadic values, all '
+                  'seven RoutingOptions on/off (histogram in the evidence); there the compared cost is recomputed from the raw route() as cost() in makepath.cpp '
+                  'defines it (edge lengths, segmentPenalty per bend and twice per doubling back, the anglePenalty term, reverseDirectionPenalty per reversing '
+                  'visibility edge, the dummy pin edges with portDirectionPenalty); the crossing / shared-path / cluster terms of the re-routing stage are not '
+                  'recomputed: a mismatch under crossingPenalty / fixedSharedPathPenalty with >= 2 connectors is re-run with the two penalties at 0 and only '
+                  'then classified as the known finding crossing_stage_frame_dependent. Orthogonal routing with segmentPenalty 0 is outside the domain '
+                  '(asserted precondition, makepath.cpp:796); clusters are not generated (clusterCrossingPenalty is sampled but inert); the nudged displayRoute() '
+                  'is compared for repetition and translation (1e-9) only, not under the symmetries. Eight frame dependences of the unchanged tree found by '
+                  'the calibration are registered as known findings with reproducers in corpus/c20_routing_config.json (run first on every run). '
+                  'removeoverlaps is additionally repeated after unrelated calls of the same API (thirdPass false, borders set / restored by the caller) '
+                  'without any reset in between (part a2). Residual of F-d, '
                   'exhibited on every run and registered as known finding scanline_addr_tiebreak_dup_ids: CmpNodePos still falls back to the address when two Variables share an id (legal input; callers in /repo use distinct ids). Dependence on '
                   'uninitialised memory can only be observed, not proved absent.',
     'technique': 'Coq proof over hand-written + cpp2v-generated Gallina, correspondence, and in-process replay runs with allocator priming',
